@@ -168,7 +168,9 @@ def make_sessions(ck, tab, T, mir, classes, exhaustive):
         valid = vg.kwargs(c)
         facet, fkey = vg.violate(c, valid)
         typo = misspell(rng, mir, c)
-        kinds = [("valid", valid, None), ("typo", valid + [[typo, {"s": "v"}]], typo),
+        with_typo = [list(x) for x in valid]
+        with_typo.insert(rng.randrange(len(with_typo) + 1), [typo, {"s": "v"}])
+        kinds = [("valid", valid, None), ("typo", with_typo, typo),
                  ("technical", valid + [[rng.choice(["extensiontype_", "gds_collector_", "parent_object_"]), None]], None)]
         if facet is not None:
             kinds.append(("facet", facet, fkey))
